@@ -55,5 +55,10 @@ static size_t ref_oer(const struct tval *t, uint8_t *out, size_t cap) {
     return o.n;
 }
 /* any C value is a structurally well-formed (possibly constraint-violating) INTEGER */
+#ifdef INT_UNSIGNED_REPR  /* asn1c represents the type as unsigned long: the driver's int64 covers 0..2^63-1 (stated bound), a negative
+                          * int64 would be the C value 2^63.., which satisfies (lb..MAX) */
+static int tv_wf(const struct tval *t) { return t->v >= 0; }
+#else
 static int tv_wf(const struct tval *t) { (void)t; return 1; }
+#endif
 #define tv_wellformed tv_wf
